@@ -60,6 +60,9 @@ pub struct FileSpec {
     pub verification: bool,
     pub metadata_ext: bool,
     pub seed: u64,
+    /// every segment spans 60-64 MiB of a xorb (with >= 70 segments the file exceeds 4 GiB, as model weights do)
+    #[serde(default)]
+    pub big_segments: bool,
 }
 
 #[derive(Clone, Debug, Serialize, Deserialize)]
@@ -74,13 +77,14 @@ pub struct ShardSpec {
     pub salt: u64,
     pub files: Vec<FileSpec>,
     pub xorbs: Vec<XorbRec>,
-    /// indices (into xorbs) whose chunk lists are additionally copied as a new xorb (same chunks in several xorbs)
+    /// indices (into xorbs) whose chunk lists are additionally copied - whole, or a run of them followed by other
+    /// chunks - as a new xorb (same chunks in several xorbs)
     pub dup_xorbs: Vec<u16>,
 }
 
 pub fn file_spec() -> impl Strategy<Value = FileSpec> {
-    (hash_spec(), prop_oneof![1 => Just(0u8), 6 => 1u8..5, 2 => 5u8..40], any::<bool>(), any::<bool>(), any::<u64>())
-        .prop_map(|(hash, n_segments, verification, metadata_ext, seed)| FileSpec { hash, n_segments, verification, metadata_ext, seed })
+    (hash_spec(), prop_oneof![4 => Just(0u8), 24 => 1u8..5, 8 => 5u8..40, 1 => 70u8..130], any::<bool>(), any::<bool>(), any::<u64>(), proptest::bool::weighted(0.15))
+        .prop_map(|(hash, n_segments, verification, metadata_ext, seed, big)| FileSpec { hash, n_segments, verification, metadata_ext, seed, big_segments: big || n_segments >= 70 })
 }
 
 pub fn xorb_rec(max_chunks: usize) -> impl Strategy<Value = XorbRec> {
@@ -101,7 +105,7 @@ pub fn shard_spec(max_files_big: usize, max_xorbs_big: usize) -> impl Strategy<V
             Just(salt),
             proptest::collection::vec(file_spec(), nf),
             proptest::collection::vec(xorb_rec(if nx > 100 { 8 } else { 40 }), nx),
-            proptest::collection::vec(any::<u16>(), 0..3),
+            proptest::collection::vec(any::<u16>(), 0..5),
         )
             .prop_map(|(salt, files, xorbs, dup_xorbs)| ShardSpec { salt, files, xorbs, dup_xorbs })
     })
@@ -161,11 +165,27 @@ pub fn materialize(spec: &ShardSpec) -> ShardModel {
             break;
         }
         let src = &spec.xorbs[crate::engine::idx(*d, spec.xorbs.len())];
-        all_xorbs.push(XorbRec {
-            hash: HashSpec { kind: 5, a: Sm64(spec.salt ^ k as u64).next(), rest: src.hash.rest ^ 0x77 },
-            chunks: src.chunks.clone(),
-            bytes_on_disk: src.bytes_on_disk,
-        });
+        // the same chunks in several xorbs: an identical list, or a list that shares a run with the
+        // source and then continues differently (so that the longest match depends on the xorb)
+        let n = src.chunks.len();
+        let other = &spec.xorbs[(crate::engine::idx(*d, spec.xorbs.len()) + 1 + k) % spec.xorbs.len()];
+        let chunks = match (*d as usize + k) % 3 {
+            1 if n >= 2 => {
+                let a = 1 + (*d as usize >> 3) % (n - 1);
+                let mut c = src.chunks[a..].to_vec();
+                c.extend(other.chunks.iter().take(3).cloned());
+                c
+            },
+            2 if n >= 2 => {
+                let b = 1 + (*d as usize >> 3) % (n - 1);
+                let mut c = src.chunks[..b].to_vec();
+                c.push((HashSpec { kind: 5, a: Sm64(spec.salt ^ 0xd0 ^ k as u64).next(), rest: *d as u64 }, 1 + (*d as u32 % 5000)));
+                c.extend(src.chunks[b..].iter().take(2).cloned());
+                c
+            },
+            _ => src.chunks.clone(),
+        };
+        all_xorbs.push(XorbRec { hash: HashSpec { kind: 5, a: Sm64(spec.salt ^ k as u64).next(), rest: src.hash.rest ^ 0x77 }, chunks, bytes_on_disk: src.bytes_on_disk });
     }
     for x in &all_xorbs {
         let h = x.hash.hash(spec.salt);
@@ -210,7 +230,8 @@ pub fn materialize(spec: &ShardSpec) -> ShardModel {
             };
             let start = if nchunks == 0 { 0 } else { (r.next() % nchunks as u64) as u32 };
             let end = if nchunks == 0 { 0 } else { start + 1 + (r.next() % (nchunks - start) as u64) as u32 };
-            segments.push(FileDataSequenceEntry::new(mh(&xh), (r.next() % 5_000_000) as u32, start, end));
+            let seg_bytes = if f.big_segments { (60u32 << 20) + (r.next() % (4 << 20)) as u32 } else { (r.next() % 5_000_000) as u32 };
+            segments.push(FileDataSequenceEntry::new(mh(&xh), seg_bytes, start, end));
             let mut vh = [0u8; 32];
             r.fill(&mut vh);
             verification.push(FileVerificationEntry::new(mh(&vh)));
